@@ -193,7 +193,8 @@ def gen_case(rng, tier):
         if rng.random() < 0.15:
             # descending axes (implementation-only stream): flip axes and grids consistently
             case["desc"] = True
-            case["kind"] = "list"
+            if len(axes) != 1 or rng.random() < 0.5:
+                case["kind"] = "list"      # (a single axis is also handed over as a bare array, descending too)
     full = case["kind"] != "none" and case["grids"] is not None and case["names"]
     calls = []
     if full and not case.get("partial"):
@@ -241,6 +242,12 @@ FIXED = [
                {"tag": "node", "idx": [2], "x": [3.0], "kw": [["a_ani", 3.0]], "kw_shuffled": [["a_ani", 3.0]]},
                {"tag": "inside", "x": [2.0], "kw": [["a_ani", 2.0]], "kw_shuffled": [["a_ani", 2.0], ["b", 0.0]]},
                {"tag": "missing", "drop": "a_ani", "kw": [["A_ANI", 1.0]]},
+               {"tag": "none_arg", "kw": None}]},
+    # the same single axis handed over as a bare array in DESCENDING order (grid flipped with it): same nodes, same bounds
+    {"via": "KinScaling", "kind": "bare", "axes": [[0.0, 1.0, 3.0]], "names": ["a_ani"], "desc": True,
+     "grids": [[1.0, 2.0, 5.0], [3.0, 1.0, 0.5]],
+     "calls": [{"tag": "node", "idx": [1], "x": [1.0], "kw": [["a_ani", 1.0]], "kw_shuffled": [["q", 1.5], ["a_ani", 1.0]]},
+               {"tag": "node", "idx": [2], "x": [3.0], "kw": [["a_ani", 3.0]], "kw_shuffled": [["a_ani", 3.0]]},
                {"tag": "none_arg", "kw": None}]},
     {"via": "KinScaling", "kind": "none", "axes": [], "names": None, "grids": None,
      "calls": [{"tag": "unconfigured", "kw": [["a_ani", 1.0]]}, {"tag": "unconfigured", "kw": []},
